@@ -103,7 +103,7 @@ func newContractSet() *ContractSet {
 	return &ContractSet{Contracts: map[string]*Contract{}, Specs: map[string]*SpecFn{}, Ghosts: map[string]*GhostDecl{}, ObjInvs: map[string][]*ObjInv{}, Guarded: map[string]string{}}
 }
 
-var clauseRe = regexp.MustCompile(`^(requires|ensures|modifies|let|cover|assert|invariant|decreases)(\[[^\]]*\])?\s+(.*)$`)
+var clauseRe = regexp.MustCompile(`^(requires|ensures|modifies|let|cover|assert|invariant|decreases|ghostupdate)(\[[^\]]*\])?\s+(.*)$`)
 
 func splitProps(s string) []string {
 	var out []string
@@ -347,6 +347,16 @@ func (cs *ContractSet) loadContractFile(path string, pkgPath string) error {
 				lab = lab[:k]
 			}
 			cl.Name = lab
+		}
+		if cl.Kind == "ghostupdate" {
+			// ghostupdate <ghost location(s)> :: <formula defining the new value>
+			k := indexTop(cl.Text, "::")
+			if k < 0 {
+				errf(i, "ghostupdate loc :: formula")
+				continue
+			}
+			cl.LetName = strings.TrimSpace(cl.Text[:k])
+			cl.Text = strings.TrimSpace(cl.Text[k+2:])
 		}
 		if cl.Kind == "let" {
 			k := strings.Index(cl.Text, "=")
